@@ -3,7 +3,7 @@ K = 'github.com/ProjectSerenity/firefly/kernel'
 B = 'github.com/ProjectSerenity/firefly/kbuild'
 
 PROP = {'pkg': 'github.com/ProjectSerenity/firefly/kernel/mm/pmm',
- 'tests': [{'name': 'TestVerifC03', 'checks_quick': 40000, 'checks_thorough': 200000}],
+ 'tests': [{'name': 'TestVerifC03', 'checks_quick': 120000, 'checks_thorough': 3000000}],
  'rule': 'as C01, with a pool of 1/63/64/65/128/129 frames forced into half of the cases and histories that also free '
          'never-allocated, out-of-pool and twice-freed frames. Oracle: Init nil or (justified) out-of-memory, never a '
          'panic; totals on the log line and in the allocator equal the model at every step; rejected frees change '
